@@ -266,3 +266,15 @@ func verifStdBits(x uint64) (int, int, int, int, uint64, uint64) {
 //@   ensures pop: result3 <= 64 && (x == 0) == (result3 == 0) && imp(x == 0xffffffffffffffff, result3 == 64)
 //@   ensures rev: result4 & 0xff == x >> 56 && result4 >> 56 == x & 0xff
 //@   ensures rot: result5 & 0x1fff == x >> 51 && result5 >> 13 == x & 0x7ffffffffffff
+
+func verifStdFillBytes(a []byte) []byte {
+	var buf [32]byte
+	x := new(big.Int).SetBytes(a)
+	return x.FillBytes(buf[:])
+}
+
+//@ func verifStdFillBytes
+//@   mode int
+//@   lens a 20
+//@   requires len(a) == 20
+//@   ensures v: len(result) == 32 && os2ip(result) == os2ip(a)
